@@ -126,7 +126,7 @@ CLAIMED = {
         "threads; what they print is parsed and TLC judges every result; crashes, hangs and failed self-verification are violations.",
    note="Trusted: TLC, output parsing. Graphs have at most 9 nodes (plus hub graphs with a thousand nodes for bfs/sssp). Distributed bfs/sssp/cc/"
         "k-core run under mpirun on 1-4 hosts (Sync and Async) and their complete output is judged; PageRank is compared with an integer "
-        "fixed-point iteration within 0.02 + 2% per node; results of the CPU applications are observed through printed summaries only.",
+        "fixed-point iteration within 0.07 + 2% per node; results of the CPU applications are observed through printed summaries only.",
    technique="TLA+ functional specification of the answers + TLC trace validation of real application runs over all algorithm variants",
    engine="free+tv", design_ref="6/C20"),
  "C05": dict(
